@@ -1,5 +1,9 @@
 import AmcVerif.Gen.VecGlue
 import AmcVerif.Lemmas.VecRep
+import AmcVerif.Gen.WordsU8
+import AmcVerif.Gen.WordsU16
+import AmcVerif.Gen.WordsU32
+import AmcVerif.Gen.WordsU64
 /-! The generated model of the public vector operations (`Gen/VecGlue.lean`, regenerated from `vectorcommon.hpp` by
 `translator/glue2lean.py`) equals the hand-written one (`Model/Vec.lean`).
 
@@ -16,6 +20,21 @@ import AmcVerif.Lemmas.VecRep
   hand-written definition, the `StaticVector` member its else branch (`emplace_eq`, `reserve_eq`, `adjustCapacity_eq`,
   `adjustCapacityRef_eq`, `emplaceBack_static`); `emplaceBack_dynamic` needs `GrowToDyn` (the source uses
   `dynStorage() + size()` after growing, the hand-written model `end()`).
+
+Task T7 (members of `Vector`, `~VectorDestr`, single-pass ranges, swap2):
+* `rfl`: `shrinkToFit_eq`, `destruct_eq`, `construct_eq`, `moveConstruct_eq`, `moveAssign_eq` (a call of a base-class member is
+  `cfg.ops.* + interpAll + setW` on both sides); `swapSame_eq`: the hand-written `swapSame` is `if c ≠ d then <generated>` (the source
+  has no self-swap guard).
+* `elems_eq`: `elems` is the pointer range `[o.begin(), o.end())` as the generated members pass it (`ptrRange`);
+  `copyAssign_eq` (`GrowStable`), `copyConstruct_eq` (`c ≠ d`, the elements of `o` readable, `GrowStable` after the construction:
+  the source constructs the empty vector before it reads `o`, the hand-written model after; `copyConstruct_fault` otherwise).
+* single-pass ranges: `assignInput_eq`, `appendInput_eq`, `insertInput_eq` (+ the public dispatchers) are function equalities; the
+  generated loops equal `appendInputLoop` by induction; `std::rotate` is the primitive `rotateTail` = the net-effect block of
+  the hand-written `insertInput` (`putLive_eq`).
+* swap2: `canSwapDyn_eq`, `canExchangeDyn_eq` (Bool functions of the words); `swap2_split` / `genSwap2_split` cut both sides into
+  `adjustEachOtherCapacity` and `swap2_impl`; `genAdjust_eq` (`GrowStable ca a`), `genExchange_eq` (`a ≠ b`, `ExchLaws`, well-formed
+  words) and `swap2_eq`. `ExchLaws` (what `setSize` does to a word in heap state) is proved for the generated base-class members of
+  every size type (`exchLaws_*`).
 
 Everything the element-level helpers of `Prim/` do leaves the words alone (`KeepsWs`, proved for each of them); moves and
 relocations never throw a C++ exception (`NoExc`): the try/catch around `relocate_after_shift` in `DynamicVector::emplace`,
@@ -961,4 +980,512 @@ theorem growStable_of_vrep {cfg : Cfg} {Ok : VB → Prop} (L : VecLaws α cfg Ok
   rcases hp.1 with ⟨_, w', hg⟩ | ⟨e, he, _⟩
   · exact ⟨w', hg.rep.ws, by rw [hg.rep.size, hrep.size]⟩
   · cases he
+
+/- ------------------------------------------------------------------------------------------------------------------
+   the members of the `Vector` class itself and `~VectorDestr` (Task T7): calls of base-class members are
+   `cfg.ops.* + interpAll + setW`, exactly as the hand-written model writes them
+   ------------------------------------------------------------------------------------------------------------------ -/
+
+theorem shrinkToFit_eq : @Gen.Glue.shrinkToFit α = shrinkToFit := rfl
+theorem destruct_eq : @Gen.Glue.destruct α = destruct := rfl
+theorem construct_eq : @Gen.Glue.construct α = construct := rfl
+theorem moveConstruct_eq : @Gen.Glue.moveConstruct α = moveConstruct := rfl
+theorem moveAssign_eq : @Gen.Glue.moveAssign α = moveAssign := rfl
+/-- `swap(Vector& o)`: the source calls `swap_impl(o)` unconditionally; the hand-written model skips the self-swap
+    (`if c ≠ d`). The generated definition is the body of that guard. -/
+theorem swapSame_eq : @swapSame α = fun cfg c d => if c ≠ d then Gen.Glue.swapSame cfg c d else pure () := rfl
+
+/-- a pure read of the element buffers: the memory is returned unchanged and the outcome does not depend on the words -/
+structure PureRead (x : M α β) : Prop where
+  st : ∀ m, (runM x m).2 = m
+  ws : ∀ m ws', (runM x { m with ws := ws' }).1 = (runM x m).1
+
+theorem PureRead.pure (a : β) : PureRead (pure a : M α β) := ⟨fun _ => rfl, fun _ _ => rfl⟩
+theorem PureRead.fault (f : Fault) : PureRead (fault f : M α β) := ⟨fun _ => rfl, fun _ _ => rfl⟩
+
+theorem PureRead.bind {x : M α β} {f : β → M α γ} (hx : PureRead x) (hf : ∀ a, PureRead (f a)) : PureRead (x >>= f) := by
+  constructor
+  · intro m
+    rw [runM_bind]
+    have h1 := hx.st m
+    cases h : runM x m with
+    | mk r m1 =>
+      rw [h] at h1; simp only at h1; subst h1
+      cases r with
+      | ok a => exact (hf a).st _
+      | error e => rfl
+  · intro m ws'
+    rw [runM_bind, runM_bind]
+    have h1 := hx.st m
+    have h2 := hx.st { m with ws := ws' }
+    have h3 := hx.ws m ws'
+    cases h : runM x m with
+    | mk r m1 =>
+      cases h' : runM x { m with ws := ws' } with
+      | mk r' m1' =>
+        rw [h] at h1 h3; rw [h'] at h2 h3; simp only at h1 h2 h3; subst h1 h2 h3
+        cases r' with
+        | ok a => exact (hf a).ws _ _
+        | error e => rfl
+
+theorem PureRead.get_bind {f : Mem α → M α β} (h1 : ∀ m, (runM (f m) m).2 = m)
+    (h2 : ∀ m ws', (runM (f { m with ws := ws' }) { m with ws := ws' }).1 = (runM (f m) m).1) :
+    PureRead ((MonadState.get : M α (Mem α)) >>= f) := by
+  constructor
+  · intro m; rw [runM_bind]; exact h1 m
+  · intro m ws'; rw [runM_bind, runM_bind]; exact h2 m ws'
+
+syntax "pr_step" : tactic
+macro "prd" : tactic => `(tactic| repeat' (first | pr_step | intro _))
+macro_rules | `(tactic| pr_step) => `(tactic| dsimp only)
+macro_rules | `(tactic| pr_step) => `(tactic| split)
+macro_rules | `(tactic| pr_step) => `(tactic| with_reducible apply PureRead.bind)
+macro_rules | `(tactic| pr_step) => `(tactic| with_reducible exact PureRead.fault _)
+macro_rules | `(tactic| pr_step) => `(tactic| with_reducible exact PureRead.pure _)
+macro_rules | `(tactic| pr_step) => `(tactic| with_reducible assumption)
+
+theorem pr_isTC : PureRead (isTC (α := α)) := by
+  unfold isTC; exact ⟨fun _ => rfl, fun _ _ => rfl⟩
+macro_rules | `(tactic| pr_step) => `(tactic| with_reducible exact pr_isTC)
+theorem pr_getBuf (r : Region) : PureRead (getBuf (α := α) r) := by
+  unfold getBuf
+  apply PureRead.get_bind
+  · intro m; cases r <;> (dsimp only; repeat' (first | rfl | split))
+  · intro m ws'; cases r <;> (dsimp only; repeat' (first | rfl | split))
+macro_rules | `(tactic| pr_step) => `(tactic| with_reducible exact pr_getBuf _)
+theorem pr_rd (a : Addr) : PureRead (rd (α := α) a) := by unfold rd; prd
+macro_rules | `(tactic| pr_step) => `(tactic| with_reducible exact pr_rd _)
+theorem pr_readLive (a : Addr) : PureRead (readLive (α := α) a) := by unfold readLive; prd
+macro_rules | `(tactic| pr_step) => `(tactic| with_reducible exact pr_readLive _)
+theorem pr_readLiveN (a : Addr) (n : Nat) : PureRead (readLiveN (α := α) a n) := by
+  induction n generalizing a with
+  | zero => exact PureRead.pure _
+  | succ n ih => unfold readLiveN; have := ih (a.add 1); prd
+macro_rules | `(tactic| pr_step) => `(tactic| with_reducible exact pr_readLiveN _ _)
+theorem pr_ptrRange (a b : Addr) : PureRead (Gen.Glue.ptrRange (α := α) a b) := by unfold Gen.Glue.ptrRange; prd
+
+
+theorem runM_setW (c : Nat) (w : VB) (m : Mem α) : runM (setW c w) m = (.ok (), { m with ws := m.ws.set c w }) := rfl
+
+/-- `elems` is the range `[begin(), end())` of the vector, as the generated members pass it -/
+theorem elems_eq (cfg : Cfg) (c : Nat) : elems (α := α) cfg c = (do Gen.Glue.ptrRange (← vbegin cfg c) (← vend cfg c)) := by
+  apply M_ext; intro m
+  unfold elems Gen.Glue.ptrRange
+  glue_unfold
+  cases h : m.ws[c]? <;> glue_run [h, Addr.add, Nat.add_sub_cancel_left]
+
+theorem elems_run (cfg : Cfg) (c : Nat) (m : Mem α) :
+    runM (elems cfg c) m = match m.ws[c]? with
+      | some w => runM (readLiveN (resolve c c (cfg.ops.begin w)) (cfg.ops.size w)) m
+      | none => (.error (.fault .oob), m) := by
+  unfold elems
+  glue_unfold
+  cases h : m.ws[c]? <;> glue_run [h]
+
+theorem elems_st (cfg : Cfg) (c : Nat) (m : Mem α) : (runM (elems cfg c) m).2 = m := by
+  rw [elems_run]
+  cases h : m.ws[c]? with
+  | none => rfl
+  | some w => exact (pr_readLiveN _ _).st m
+
+/-- step over a common read: the continuations are compared on the unchanged memory -/
+theorem bind_congr_read (x : M α β) (hx : ∀ m, (runM x m).2 = m) (f g : β → M α γ) (m : Mem α)
+    (h : ∀ a, (runM x m).1 = .ok a → runM (f a) m = runM (g a) m) : runM (x >>= f) m = runM (x >>= g) m := by
+  apply bind_congr_run
+  intro a m' hr
+  have h1 := hx m; rw [hr] at h1; simp only at h1; subst h1
+  exact h a (by rw [hr])
+
+theorem copyAssign_gen (cfg : Cfg) (c d : Nat) :
+    Gen.Glue.copyAssign (α := α) cfg c d = if c ≠ d then (elems cfg d >>= fun vals => Gen.Glue.assignIter cfg c vals) else pure () := by
+  unfold Gen.Glue.copyAssign
+  simp only [elems_eq, bind_assoc]
+
+theorem copyAssign_eq (cfg : Cfg) (c d : Nat) (m : Mem α) (hS : GrowStable cfg c m) :
+    runM (Gen.Glue.copyAssign cfg c d) m = runM (copyAssign cfg c d) m := by
+  rw [copyAssign_gen]
+  unfold copyAssign
+  simp only [runM_ite]
+  split
+  · exact bind_congr_read _ (elems_st cfg d) _ _ m (fun vals _ => assignIter_eq cfg c vals m hS)
+  · rfl
+
+theorem copyConstruct_gen (cfg : Cfg) (c d : Nat) :
+    Gen.Glue.copyConstruct (α := α) cfg c d = (do construct cfg c; Gen.Glue.appendIter cfg c (← elems cfg d)) := by
+  unfold Gen.Glue.copyConstruct construct
+  simp only [elems_eq, bind_assoc]
+
+theorem elems_frame (cfg : Cfg) (c d : Nat) (w : VB) (m : Mem α) (hcd : c ≠ d) :
+    runM (elems cfg d) { m with ws := m.ws.set c w } = ((runM (elems cfg d) m).1, { m with ws := m.ws.set c w }) := by
+  have h2 := elems_st cfg d { m with ws := m.ws.set c w }
+  have h1 : (runM (elems cfg d) { m with ws := m.ws.set c w }).1 = (runM (elems cfg d) m).1 := by
+    rw [elems_run, elems_run]
+    have : (m.ws.set c w)[d]? = m.ws[d]? := List.getElem?_set_ne hcd
+    simp only [this]
+    cases h : m.ws[d]? with
+    | none => rfl
+    | some w' => exact (pr_readLiveN _ _).ws m _
+  exact Prod.ext h1 h2
+
+/-- `Vector(const Vector& o)`: the source constructs the empty vector first and reads the elements of `o` when the range is
+    passed to `append`; the hand-written model reads them first. The two agree whenever `o` is another object whose elements
+    can be read (otherwise both stop with the same fault, the hand-written model before, the source after the construction of
+    the empty vector) -/
+theorem copyConstruct_eq (cfg : Cfg) (c d : Nat) (m : Mem α) (hcd : c ≠ d) (vals : List α)
+    (hv : (runM (elems cfg d) m).1 = .ok vals) (hS : GrowStable cfg c { m with ws := m.ws.set c (cfg.ops.ctor cfg.n) }) :
+    runM (Gen.Glue.copyConstruct cfg c d) m = runM (copyConstruct cfg c d) m := by
+  rw [copyConstruct_gen]
+  unfold copyConstruct construct
+  have he : runM (elems cfg d) m = (.ok vals, m) := by
+    have := elems_st cfg d m
+    cases h : runM (elems cfg d) m with
+    | mk r m' => rw [h] at hv this; simp only at hv this; rw [hv, this]
+  simp only [runM_bind, he, runM_setW, elems_frame cfg c d _ m hcd]
+  exact appendIter_eq cfg c vals _ hS
+
+/-- when the elements of `o` cannot be read both stop with the same fault -/
+theorem copyConstruct_fault (cfg : Cfg) (c d : Nat) (m : Mem α) (hcd : c ≠ d) (e : Stop)
+    (hv : (runM (elems cfg d) m).1 = .error e) :
+    (runM (Gen.Glue.copyConstruct cfg c d) m).1 = .error e ∧ (runM (copyConstruct cfg c d) m).1 = .error e := by
+  rw [copyConstruct_gen]
+  unfold copyConstruct construct
+  have he : runM (elems cfg d) m = (.error e, m) := by
+    have := elems_st cfg d m
+    cases h : runM (elems cfg d) m with
+    | mk r m' => rw [h] at hv this; simp only at hv this; rw [hv, this]
+  simp only [runM_bind, he, runM_setW, elems_frame cfg c d _ m hcd, and_self]
+
+/- ------------------------------------------------------------------------------------------------------------------
+   the single-pass (`std::input_iterator_tag`) overloads of `assign_range` / `append_range` / `insert_range`: the loop
+   `for (; first != last; ++first) emplace_back(*first)` is an auxiliary recursive definition over the values of the range
+   ------------------------------------------------------------------------------------------------------------------ -/
+theorem assignInputLoop_eq : @Gen.Glue.assignInputLoop α = appendInputLoop := by
+  funext cfg c vals
+  induction vals with
+  | nil => rfl
+  | cons v vs ih => unfold Gen.Glue.assignInputLoop appendInputLoop; rw [ih]
+
+theorem appendInputLoop_eq : @Gen.Glue.appendInputLoop α = appendInputLoop := by
+  funext cfg c vals
+  induction vals with
+  | nil => rfl
+  | cons v vs ih => unfold Gen.Glue.appendInputLoop appendInputLoop; rw [ih]
+
+theorem assignInput_eq : @Gen.Glue.assignInput α = assignInput := by
+  funext cfg c vals
+  unfold Gen.Glue.assignInput assignInput
+  rw [assignInputLoop_eq]; rfl
+
+theorem appendInput_eq : @Gen.Glue.appendInput α = appendInput := by
+  funext cfg c vals
+  unfold Gen.Glue.appendInput appendInput
+  rw [appendInputLoop_eq]; rfl
+
+/-- the named primitive standing for `std::rotate(begin() + i, begin() + j, end())` is the net-effect block of the
+    hand-written `insertInput` -/
+theorem putLive_eq : @Gen.Glue.putLive α = insertInput.put := by
+  funext a vals
+  induction vals generalizing a with
+  | nil => rfl
+  | cons v vs ih => unfold Gen.Glue.putLive insertInput.put; rw [ih]
+
+theorem insertInput_eq : @Gen.Glue.insertInput α = insertInput := by
+  funext cfg c p vals
+  unfold Gen.Glue.insertInput insertInput Gen.Glue.rotateTail
+  rw [appendInput_eq, putLive_eq]
+  simp only [bind_assoc]
+
+theorem insertIterInput_eq : @Gen.Glue.insertIterInput α = insertInput := by
+  funext cfg c p vals; unfold Gen.Glue.insertIterInput; rw [insertInput_eq]
+theorem assignIterInput_eq : @Gen.Glue.assignIterInput α = assignInput := by
+  funext cfg c vals; unfold Gen.Glue.assignIterInput; rw [assignInput_eq]
+theorem appendIterInput_eq : @Gen.Glue.appendIterInput α = appendInput := by
+  funext cfg c vals; unfold Gen.Glue.appendIterInput; rw [appendInput_eq]
+
+/- ------------------------------------------------------------------------------------------------------------------
+   swap2 between two vectors of possibly different flavour / size type / allocator: `VectorImpl::swap2`,
+   `adjustEachOtherCapacity`, `swap2_impl`, `canExchangeDynStorage`, `canSwapDynStorage` (two configurations `ca cb`)
+   ------------------------------------------------------------------------------------------------------------------ -/
+theorem nat_beq_decide (x y : Nat) : (x == y) = decide (x = y) := by
+  by_cases h : x = y <;> simp [h]
+
+theorem canSwapDyn_eq (ca cb : Cfg) (wa wb : VB) : canSwapDyn ca cb wa wb = Gen.Glue.canSwapDynStorage ca cb wa wb := by
+  unfold canSwapDyn Gen.Glue.canSwapDynStorage Gen.Glue.stdCanSwapDynStorage Gen.Glue.smallCanSwapDynStorage
+  cases ca.flavour <;> cases cb.flavour <;> simp [Bool.decide_and, Bool.and_assoc, nat_beq_decide]
+
+theorem canExchangeDyn_eq (ca cb : Cfg) (wa wb : VB) :
+    canExchangeDyn ca cb wa wb = Gen.Glue.dynCanExchangeDynStorage ca cb wa wb := by
+  unfold canExchangeDyn Gen.Glue.dynCanExchangeDynStorage
+  rw [canSwapDyn_eq]
+  simp [Bool.decide_and, Bool.and_assoc]
+
+
+/-- first half of the hand-written `swap2`: `adjustEachOtherCapacity` -/
+def swap2Adjust (ca cb : Cfg) (a b : Nat) : M α Unit := do
+  let wa ← getW a
+  let wb ← getW b
+  if ca.dynamic then
+    if !canExchangeDyn ca cb wa wb then
+      adjustCapacity ca a (cb.ops.size wb)
+      adjustCapacity cb b (ca.ops.size wa)
+  else
+    adjustCapacity ca a (cb.ops.size wb)
+    adjustCapacity cb b (ca.ops.size wa)
+
+/-- second half of the hand-written `swap2`: `swap2_impl` -/
+def swap2Exchange (ca cb : Cfg) (a b : Nat) : M α Unit := do
+  let wa ← getW a
+  let wb ← getW b
+  let sa := ca.ops.size wa
+  let sb := cb.ops.size wb
+  if ca.dynamic && cb.dynamic && canExchangeDyn ca cb wa wb then
+    let capA := ca.ops.capacity wa
+    let capB := cb.ops.capacity wb
+    setW a ⟨capB, sb, wb.dyn⟩
+    setW b ⟨capA, sa, wa.dyn⟩
+  else
+    swapDeep (← vbegin ca a) sa (← vbegin cb b) sb
+    setSize ca a sb
+    setSize cb b sa
+
+theorem swap2_split (ca cb : Cfg) (a b : Nat) :
+    swap2 (α := α) ca cb a b = (do swap2Adjust ca cb a b; swap2Exchange ca cb a b) := by
+  unfold swap2 swap2Adjust swap2Exchange
+  simp only [bind_assoc, ite_bind', pure_bind]
+
+/-- the generated `adjustEachOtherCapacity` of the flavour class of `*this` -/
+def genAdjust (ca cb : Cfg) (a b : Nat) : M α Unit :=
+  if ca.dynamic then Gen.Glue.dynAdjustEachOtherCapacity ca cb a b else Gen.Glue.staticAdjustEachOtherCapacity ca cb a b
+
+/-- the generated `swap2_impl` overload selected by the flavour classes of `*this` and `o` -/
+def genExchange (ca cb : Cfg) (a b : Nat) : M α Unit :=
+  if ca.dynamic then
+    if cb.dynamic then Gen.Glue.dynSwap2ImplDyn ca cb a b else Gen.Glue.dynSwap2ImplStatic ca cb a b
+  else Gen.Glue.staticSwap2Impl ca cb a b
+
+theorem genSwap2_split (ca cb : Cfg) (a b : Nat) :
+    Gen.Glue.swap2 (α := α) ca cb a b = (do genAdjust ca cb a b; genExchange ca cb a b) := by
+  unfold Gen.Glue.swap2 genAdjust genExchange
+  cases ca.dynamic <;> cases cb.dynamic <;> rfl
+
+
+theorem dynAdjustCapacity_eq (cfg : Cfg) (c n : Nat) (hd : cfg.dynamic = true) :
+    Gen.Glue.dynAdjustCapacity (α := α) cfg c n = adjustCapacity cfg c n := by rw [adjustCapacity_eq, if_pos hd]
+theorem staticAdjustCapacity_eq (cfg : Cfg) (c n : Nat) (hd : ¬ cfg.dynamic = true) :
+    Gen.Glue.staticAdjustCapacity (α := α) cfg c n = adjustCapacity cfg c n := by rw [adjustCapacity_eq, if_neg hd]
+
+theorem kw_adjustCapacity_static (cfg : Cfg) (c n : Nat) (hd : ¬ cfg.dynamic = true) : KeepsWs (adjustCapacity (α := α) cfg c n) := by
+  unfold adjustCapacity; rw [if_neg hd]; kws
+
+/-- `adjustEachOtherCapacity`: the source reads `this->size()` after `adjustCapacity(o.size())`, the hand-written model before
+    (`GrowStable`: a successful `grow` keeps the size) -/
+theorem genAdjust_eq (ca cb : Cfg) (a b : Nat) (m : Mem α) (hS : GrowStable ca a m) :
+    runM (genAdjust ca cb a b) m = runM (swap2Adjust ca cb a b) m := by
+  unfold genAdjust swap2Adjust
+  by_cases hd : ca.dynamic = true
+  · simp only [if_pos hd]
+    unfold Gen.Glue.dynAdjustEachOtherCapacity
+    simp only [dynAdjustCapacity_eq _ _ _ hd, canExchangeDyn_eq]
+    glue_unfold
+    cases ha : m.ws[a]? with
+    | none => simp only [run_getW_bind, ha]
+    | some wa =>
+      cases hb : m.ws[b]? with
+      | none => simp only [run_getW_bind, ha, hb]
+      | some wb =>
+        simp only [run_getW_bind, ha, hb]
+        cases hx : Gen.Glue.dynCanExchangeDynStorage ca cb wa wb
+        · simp only [Bool.not_false, Bool.false_eq_true, not_false_eq_true, if_true, run_getW_bind, hb]
+          apply bind_congr_run; intro _ m' hr
+          obtain ⟨w', h', hsz⟩ := adjustCapacity_stable hS ha hr
+          simp only [run_getW_bind, h', hsz]
+        · simp only [Bool.not_true, Bool.false_eq_true, not_true_eq_false, if_false]
+  · simp only [if_neg hd]
+    unfold Gen.Glue.staticAdjustEachOtherCapacity
+    simp only [staticAdjustCapacity_eq _ _ _ hd]
+    glue_unfold
+    cases ha : m.ws[a]? with
+    | none =>
+      cases hb : m.ws[b]? with
+      | none => simp only [run_getW_bind, ha, hb]
+      | some wb =>
+        simp only [run_getW_bind, ha, hb]
+        unfold adjustCapacity
+        simp only [if_neg hd]
+        glue_unfold
+        split <;> simp only [bind_assoc, runM_bind, run_getW_bind, ha, runM_getW]
+    | some wa =>
+      cases hb : m.ws[b]? with
+      | none => simp only [run_getW_bind, ha, hb]
+      | some wb =>
+        simp only [run_getW_bind, ha, hb]
+        apply bind_congr_run; intro _ m' hr
+        have := ws_of_run (kw_adjustCapacity_static ca a _ hd) hr
+        simp only [run_getW_bind, this, ha]
+
+
+theorem runM_setW' (c : Nat) (w : VB) (m : Mem α) : runM (setW c w) m = (.ok (), { m with ws := m.ws.set c w }) := rfl
+
+theorem ws_set_self {l : List VB} {a : Nat} {w x : VB} (h : l[a]? = some w) : (l.set a x)[a]? = some x := by
+  have hl : a < l.length := by
+    cases hh : decide (a < l.length) with
+    | true => exact of_decide_eq_true hh
+    | false =>
+      have : ¬ a < l.length := of_decide_eq_false hh
+      rw [List.getElem?_eq_none (by omega)] at h; cases h
+  simp [List.getElem?_set, hl]
+
+theorem ws_set_ne {l : List VB} {a b : Nat} {x : VB} (h : a ≠ b) : (l.set a x)[b]? = l[b]? := by
+  simp [List.getElem?_set, h]
+
+theorem run_setW_bind (c : Nat) (w : VB) (f : Unit → M α β) (m : Mem α) :
+    runM (setW c w >>= f) m = runM (f ()) { m with ws := m.ws.set c w } := by
+  rw [runM_bind, runM_setW']
+
+/-- the exchange of the two heap buffers as the source performs it, step by step -/
+theorem exchange_run (ca cb : Cfg) (a b : Nat) (m : Mem α) (wa wb : VB) (hab : a ≠ b) (ha : m.ws[a]? = some wa) (hb : m.ws[b]? = some wb)
+    (sa sb capA capB : Nat) :
+    runM (do Gen.Glue.swapDynStorage a b; setSize ca a sb; Gen.Glue.setCapacity a capB; setSize cb b sa; Gen.Glue.setCapacity b capA) m
+      = (.ok (), { m with ws := (m.ws.set a { ca.ops.setSize { wa with dyn := wb.dyn } (sb % (ca.ops.kMax + 1)) with capa := capB }).set b
+                                  { cb.ops.setSize { wb with dyn := wa.dyn } (sa % (cb.ops.kMax + 1)) with capa := capA } }) := by
+  unfold Gen.Glue.swapDynStorage Gen.Glue.setCapacity setSize
+  simp only [bind_assoc, pure_bind, run_getW_bind, run_setW_bind, ha, hb, ws_set_self ha, ws_set_self hb, ws_set_ne hab, ws_set_ne hab.symm, runM_setW']
+  have hla : a < m.ws.length := by
+    cases hh : decide (a < m.ws.length) with
+    | true => exact of_decide_eq_true hh
+    | false => have : ¬ a < m.ws.length := of_decide_eq_false hh; rw [List.getElem?_eq_none (by omega)] at ha; cases ha
+  have hlb : b < m.ws.length := by
+    cases hh : decide (b < m.ws.length) with
+    | true => exact of_decide_eq_true hh
+    | false => have : ¬ b < m.ws.length := of_decide_eq_false hh; rw [List.getElem?_eq_none (by omega)] at hb; cases hb
+  simp [List.getElem?_set, List.length_set, hla, hlb, hab, hab.symm]
+  apply List.ext_getElem?
+  intro i
+  simp only [List.getElem?_set, List.length_set]
+  by_cases h1 : b = i <;> by_cases h2 : a = i <;> simp [h1, h2, hla, hlb]
+
+/-- laws of the generated base-class members on words in heap state that the exchange of two heap buffers relies on (they hold for
+    the generated `StdVectorBase` / `SmallVectorBase` members of every size type; they are not properties of arbitrary `BaseOps`) -/
+structure ExchLaws (cfg : Cfg) : Prop where
+  setSize : ∀ w s, cfg.ops.isSmall w = false → cfg.ops.setSize w s = { w with size := s }
+  isSmall_dyn : ∀ w d, cfg.ops.isSmall { w with dyn := d } = cfg.ops.isSmall w
+  std_large : cfg.flavour = .std → ∀ w, cfg.ops.isSmall w = false
+
+theorem not_small_of_canSwap {ca cb : Cfg} {wa wb : VB} (La : ExchLaws ca) (Lb : ExchLaws cb)
+    (h : Gen.Glue.canSwapDynStorage ca cb wa wb = true) : ca.ops.isSmall wa = false ∧ cb.ops.isSmall wb = false := by
+  unfold Gen.Glue.canSwapDynStorage Gen.Glue.stdCanSwapDynStorage Gen.Glue.smallCanSwapDynStorage at h
+  cases hfa : ca.flavour <;> cases hfb : cb.flavour <;> simp [hfa, hfb] at h
+  · exact ⟨La.std_large hfa _, Lb.std_large hfb _⟩
+  · exact ⟨La.std_large hfa _, h.2⟩
+  · exact ⟨h.2, Lb.std_large hfb _⟩
+  · exact ⟨h.1.2, h.2⟩
+
+/-- the `swap_deep` path of `swap2_impl`, as the hand-written model writes it -/
+def swap2Deep (ca cb : Cfg) (a b : Nat) : M α Unit := do
+  let wa ← getW a
+  let wb ← getW b
+  swapDeep (← vbegin ca a) (ca.ops.size wa) (← vbegin cb b) (cb.ops.size wb)
+  setSize ca a (cb.ops.size wb)
+  setSize cb b (ca.ops.size wa)
+
+theorem staticSwap2Impl_eq (ca cb : Cfg) (a b : Nat) : Gen.Glue.staticSwap2Impl (α := α) ca cb a b = swap2Deep ca cb a b := by
+  unfold Gen.Glue.staticSwap2Impl swap2Deep
+  simp only [vsize, bind_assoc, pure_bind]
+
+theorem dynSwap2ImplStatic_eq (ca cb : Cfg) (a b : Nat) : Gen.Glue.dynSwap2ImplStatic (α := α) ca cb a b = swap2Deep ca cb a b := by
+  unfold Gen.Glue.dynSwap2ImplStatic swap2Deep
+  simp only [vsize, bind_assoc, pure_bind]
+
+theorem swap2Exchange_deep (ca cb : Cfg) (a b : Nat) (h : ¬ (ca.dynamic = true ∧ cb.dynamic = true)) :
+    swap2Exchange (α := α) ca cb a b = swap2Deep ca cb a b := by
+  unfold swap2Exchange swap2Deep
+  have : (ca.dynamic && cb.dynamic) = false := by
+    cases h1 : ca.dynamic <;> cases h2 : cb.dynamic <;> simp_all
+  simp only [this, Bool.false_and, Bool.false_eq_true, if_false]
+
+/-- `swap2_impl`: the source exchanges the heap buffers member by member (`swapDynStorage`, `setSize`, `mcapacity() =`), the
+    hand-written model writes the resulting words directly -/
+theorem genExchange_eq (ca cb : Cfg) (a b : Nat) (m : Mem α) (hab : a ≠ b) (La : ExchLaws ca) (Lb : ExchLaws cb)
+    (hwa : ∀ w, m.ws[a]? = some w → ca.ops.size w ≤ ca.ops.capacity w)
+    (hwb : ∀ w, m.ws[b]? = some w → cb.ops.size w ≤ cb.ops.capacity w) :
+    runM (genExchange ca cb a b) m = runM (swap2Exchange ca cb a b) m := by
+  unfold genExchange
+  by_cases hda : ca.dynamic = true
+  · by_cases hdb : cb.dynamic = true
+    · rw [if_pos hda, if_pos hdb]
+      unfold Gen.Glue.dynSwap2ImplDyn swap2Exchange
+      simp only [hda, hdb, Bool.true_and, canExchangeDyn_eq]
+      glue_unfold
+      cases ha : m.ws[a]? with
+      | none => simp only [run_getW_bind, ha]
+      | some wa =>
+        cases hb : m.ws[b]? with
+        | none => simp only [run_getW_bind, ha, hb]
+        | some wb =>
+          simp only [run_getW_bind, ha, hb]
+          cases hx : Gen.Glue.dynCanExchangeDynStorage ca cb wa wb
+          · simp only [Bool.false_eq_true, if_false, run_getW_bind, ha, hb]
+          · simp only [if_true, run_getW_bind, ha, hb]
+            have hx' := hx
+            unfold Gen.Glue.dynCanExchangeDynStorage at hx'
+            simp only [decide_eq_true_eq] at hx'
+            obtain ⟨⟨hsw, hcb⟩, hca⟩ := hx'
+            obtain ⟨hsa, hsb⟩ := not_small_of_canSwap La Lb hsw
+            have h1 := exchange_run ca cb a b m wa wb hab ha hb (ca.ops.size wa) (cb.ops.size wb) (ca.ops.capacity wa) (cb.ops.capacity wb)
+            have e1 : cb.ops.size wb % (ca.ops.kMax + 1) = cb.ops.size wb := Nat.mod_eq_of_lt (by have := hwb wb hb; omega)
+            have e2 : ca.ops.size wa % (cb.ops.kMax + 1) = ca.ops.size wa := Nat.mod_eq_of_lt (by have := hwa wa ha; omega)
+            rw [e1, e2, La.setSize _ _ (by rw [La.isSmall_dyn]; exact hsa), Lb.setSize _ _ (by rw [Lb.isSmall_dyn]; exact hsb)] at h1
+            simp only [setSize, bind_assoc, pure_bind, e1, e2] at h1
+            rw [e1, e2, h1]
+            simp only [run_setW_bind, runM_setW']
+    · rw [if_pos hda, if_neg hdb, dynSwap2ImplStatic_eq, swap2Exchange_deep _ _ _ _ (fun h => hdb h.2)]
+  · rw [if_neg hda, staticSwap2Impl_eq, swap2Exchange_deep _ _ _ _ (fun h => hda h.1)]
+
+
+/-- `swap2`: generated = hand-written, for two different objects, under the laws of the base-class members on heap words, when a
+    successful `grow` keeps the size (`GrowStable`, see `growStable_of_vrep`) and the words of the two vectors after
+    `adjustEachOtherCapacity` are well formed (`size() <= capacity()`) -/
+theorem swap2_eq (ca cb : Cfg) (a b : Nat) (m : Mem α) (hab : a ≠ b) (La : ExchLaws ca) (Lb : ExchLaws cb)
+    (hS : GrowStable ca a m)
+    (hwf : ∀ m', runM (swap2Adjust ca cb a b) m = (.ok (), m') →
+      (∀ w, m'.ws[a]? = some w → ca.ops.size w ≤ ca.ops.capacity w) ∧ (∀ w, m'.ws[b]? = some w → cb.ops.size w ≤ cb.ops.capacity w)) :
+    runM (Gen.Glue.swap2 ca cb a b) m = runM (swap2 ca cb a b) m := by
+  rw [genSwap2_split, swap2_split, runM_bind, runM_bind, genAdjust_eq _ _ _ _ _ hS]
+  cases h : runM (swap2Adjust ca cb a b) m with
+  | mk r m' =>
+    cases r with
+    | error e => rfl
+    | ok u =>
+      cases u
+      exact genExchange_eq ca cb a b m' hab La Lb (hwf m' h).1 (hwf m' h).2
+
+/- the laws `ExchLaws` hold for the generated members of the three vector base classes, for every size type -/
+section
+open AmcVerif.Gen
+theorem exchLaws_std_U8 (cfg : Cfg) (hops : cfg.ops = U8.dvbOps) : ExchLaws cfg :=
+  ⟨fun w s _ => by rw [hops]; rfl, fun w d => by rw [hops]; rfl, fun _ w => by rw [hops]; rfl⟩
+theorem exchLaws_std_U16 (cfg : Cfg) (hops : cfg.ops = U16.dvbOps) : ExchLaws cfg :=
+  ⟨fun w s _ => by rw [hops]; rfl, fun w d => by rw [hops]; rfl, fun _ w => by rw [hops]; rfl⟩
+theorem exchLaws_std_U32 (cfg : Cfg) (hops : cfg.ops = U32.dvbOps) : ExchLaws cfg :=
+  ⟨fun w s _ => by rw [hops]; rfl, fun w d => by rw [hops]; rfl, fun _ w => by rw [hops]; rfl⟩
+theorem exchLaws_std_U64 (cfg : Cfg) (hops : cfg.ops = U64.dvbOps) : ExchLaws cfg :=
+  ⟨fun w s _ => by rw [hops]; rfl, fun w d => by rw [hops]; rfl, fun _ w => by rw [hops]; rfl⟩
+
+theorem exchLaws_small_U8 (cfg : Cfg) (hfl : cfg.flavour = .small) (hops : cfg.ops = U8.svbOps) : ExchLaws cfg :=
+  ⟨fun w s h => by rw [hops] at h ⊢; simp only [U8.svbOps, U8.SVB.isSmall, U8.SVB.setSize] at h ⊢; rw [h]; rfl,
+   fun w d => by rw [hops]; rfl, fun h => by rw [hfl] at h; cases h⟩
+theorem exchLaws_small_U16 (cfg : Cfg) (hfl : cfg.flavour = .small) (hops : cfg.ops = U16.svbOps) : ExchLaws cfg :=
+  ⟨fun w s h => by rw [hops] at h ⊢; simp only [U16.svbOps, U16.SVB.isSmall, U16.SVB.setSize] at h ⊢; rw [h]; rfl,
+   fun w d => by rw [hops]; rfl, fun h => by rw [hfl] at h; cases h⟩
+theorem exchLaws_small_U32 (cfg : Cfg) (hfl : cfg.flavour = .small) (hops : cfg.ops = U32.svbOps) : ExchLaws cfg :=
+  ⟨fun w s h => by rw [hops] at h ⊢; simp only [U32.svbOps, U32.SVB.isSmall, U32.SVB.setSize] at h ⊢; rw [h]; rfl,
+   fun w d => by rw [hops]; rfl, fun h => by rw [hfl] at h; cases h⟩
+theorem exchLaws_small_U64 (cfg : Cfg) (hfl : cfg.flavour = .small) (hops : cfg.ops = U64.svbOps) : ExchLaws cfg :=
+  ⟨fun w s h => by rw [hops] at h ⊢; simp only [U64.svbOps, U64.SVB.isSmall, U64.SVB.setSize] at h ⊢; rw [h]; rfl,
+   fun w d => by rw [hops]; rfl, fun h => by rw [hfl] at h; cases h⟩
+
+/-- a `FixedCapacityVector` never takes part in an exchange of heap buffers (`isSmall` is constantly true): the laws hold vacuously -/
+theorem exchLaws_fixed (cfg : Cfg) (hfl : cfg.flavour = .fixed) (hs : ∀ w, cfg.ops.isSmall w = true) : ExchLaws cfg :=
+  ⟨fun w s h => by rw [hs] at h; exact absurd h (by decide), fun w d => by rw [hs, hs], fun h => by rw [hfl] at h; cases h⟩
+end
 end AmcVerif.GlueBridge
